@@ -371,7 +371,7 @@ private theorem cleanView_real (ip fp : List Char) (dot : Bool) (exp : Option (C
           simp at e
           subst e
           simp [isAsciiDigit] at this
-      have hb : ((fp ++ (expText exp ++ rest)).head? == some '_') = false := by simp [hhead]
+      have hb : ((fp ++ (expText exp ++ rest)).head? == some '_') = false := beq_eq_false_iff_ne.2 hhead
       simp only [if_true, cleanView, hb, hfpc]
       decide
   simp only [List.append_assoc] at h1 ⊢
